@@ -370,6 +370,25 @@ fn run_variants(cfg: &Config, ev: &mut Vec<Value>, rep: &mut Report) {
         }
         ev.push(json!({"op": "variant", "what": "zero-location", "cfg": cfg.id, "same": same, "wellformed": true}));
     }
+    // (b2) the same for unhinted draws of variable fonts, at integral and fractional sizes
+    if !font.axes().is_empty() {
+        let zero = location(&font, &[]);
+        let mut same = true;
+        'usizes: for size in [cfg.size, 8.0, 11.0, 13.0, 17.3, 21.0, 10.5, 33.0] {
+            for gid in &gids {
+                let Some(g) = outlines.get(GlyphId::new(*gid)) else { continue };
+                let (mut r0, mut r1) = (Rec::new(), Rec::new());
+                let a = guarded(|| g.draw(DrawSettings::unhinted(Size::new(size), LocationRef::default()), &mut r0).map(|m| (m.advance_width, m.lsb)).map_err(|e| e.to_string()));
+                let b = guarded(|| g.draw(DrawSettings::unhinted(Size::new(size), &zero), &mut r1).map(|m| (m.advance_width, m.lsb)).map_err(|e| e.to_string()));
+                if a != b || r0.cmds != r1.cmds {
+                    same = false;
+                    rep.violation(&format!("{}: unhinted glyph {gid} at {size} ppem differs between no location and an all-zero location", cfg.name), json!({"kind": "hint-variant", "cfg": cfg.id}));
+                    break 'usizes;
+                }
+            }
+        }
+        ev.push(json!({"op": "variant", "what": "zero-location-unhinted", "cfg": cfg.id, "same": same, "wellformed": true}));
+    }
     // (c) many threads drawing through one shared instance (and clones of it)
     let expect: Vec<(String, bool)> = gids.iter().map(|g| draw_one(&font, *g, &inst, false, None)).collect();
     let same = std::thread::scope(|s| {
